@@ -48,7 +48,7 @@ def isValid (v : List Rat) (deg? : Option Nat) : Bool :=
     if !(2 * d + 1 < v.length) then false
     else
       let npts := v.length - d - 1
-      let ks := getUnique ((v.drop d).take (npts + 1 - d))
+      let ks := (v.drop d).take (npts + 1 - d)
       if ks.any (fun k => decide (cnt v k > d + 1)) then false
       else if cnt v (v.headD 0) != d + 1 then false
       else if cnt v (v.getLastD 0) != d + 1 then false
